@@ -8,3 +8,7 @@ done
 for f in $(git diff --name-only --diff-filter=U -- evidence 2>/dev/null); do git checkout --theirs -- "$f" 2>/dev/null && git add "$f"; done
 python3 tools/gen_manifest.py
 git add MANIFEST.json known_findings.json lean/Driver.lean lean/DateutilVerif.lean
+# anything still unmerged is a real conflict: say so loudly (do not commit over it)
+LEFT=$(git diff --name-only --diff-filter=U)
+MARK=$(git grep -l -E '^(<<<<<<<|>>>>>>>) ' -- . ':!reviews' ':!tools/resolve_generated.sh' 2>/dev/null)
+if [ -n "$LEFT$MARK" ]; then echo "UNRESOLVED CONFLICTS: $LEFT $MARK"; exit 1; fi
